@@ -129,6 +129,47 @@ def large_values(kind, n):
     raise ValueError(kind)
 
 
+def scalar_limits():
+    """(label, tag + payload) around the limits of what the Python types
+    behind the scalar tags can hold."""
+    out = []
+    dtmax = 253402300799            # 9999-12-31T23:59:59Z in seconds
+    stamps = set()
+    for centre in (0, 2**31, 2**32, dtmax, dtmax * 1000, (dtmax + 1) * 1000,
+                   (dtmax + 1) * 1000000, 2**53, 2**63, 2**64 - 1,
+                   86400 * 10**9, 86400 * 10**9 * 1000, 10**15, 10**16,
+                   10**17, 10**18):
+        for d in (-1001, -1000, -999, -2, -1, 0, 1, 2, 999, 1000, 1001):
+            if 0 <= centre + d < 2**64:
+                stamps.add(centre + d)
+    # every millisecond of the last and the first second around the limit
+    stamps.update(range(dtmax * 1000 - 5, (dtmax + 1) * 1000 + 1005))
+    for raw in sorted(stamps):
+        out.append(('timestamp %d' % raw, b'T' + struct.pack('>Q', raw)))
+    for scale in (0, 1, 2, 27, 28, 29, 127, 128, 254, 255):
+        for value in (0, 1, -1, 2**31 - 1, -2**31, 10**9, -10**9, 999999999):
+            out.append(('decimal scale %d value %d' % (scale, value),
+                        b'D' + struct.pack('>Bi', scale, value)))
+    for bits in (0x00000000, 0x80000000, 0x00000001, 0x007fffff, 0x00800000,
+                 0x7f7fffff, 0x7f800000, 0xff800000, 0x7fc00000, 0x7f800001,
+                 0xffc00000, 0x7fffffff, 0xffffffff, 0x3f800000):
+        out.append(('float bits %08x' % bits, b'f' + struct.pack('>I', bits)))
+    for bits in (0, 1 << 63, 1, 0x000fffffffffffff, 0x0010000000000000,
+                 0x7fefffffffffffff, 0x7ff0000000000000, 0xfff0000000000000,
+                 0x7ff8000000000000, 0x7ff0000000000001, 0xfff8000000000000,
+                 0x7fffffffffffffff, 0xffffffffffffffff):
+        out.append(('double bits %016x' % bits,
+                    b'd' + struct.pack('>Q', bits)))
+    for tag, fmt, vals in ((b'l', '>q', (-2**63, -1, 0, 2**63 - 1)),
+                           (b'L', '>Q', (0, 2**63 - 1, 2**63, 2**64 - 1)),
+                           (b'i', '>I', (0, 2**31 - 1, 2**31, 2**32 - 1)),
+                           (b'I', '>i', (-2**31, -1, 0, 2**31 - 1))):
+        for v in vals:
+            out.append(('%s %d' % (tag.decode(), v), tag +
+                        struct.pack(fmt, v)))
+    return out
+
+
 def tasks(tier, seed=0):
     n = len(krep())
     out = []
@@ -154,6 +195,7 @@ def tasks(tier, seed=0):
     out += [('shapes', k) for k in range(8)]
     out += [('short',), ('nested-short',), ('hostile-names',),
             ('shaped-nesting',)]
+    out += [('scalar-limits', part) for part in range(4)]
     out += [('siblings', n) for n in ((64, 256, 1024, 2048)
                                       if tier == 'thorough'
                                       else (64, 256, 1024))]
@@ -241,6 +283,23 @@ def inputs(task, tier, seed=0):
             yield label + ' (method argument table)', wraps['table-body'](body)
             props = b'\x20\x00' + struct.pack('>I', len(body)) + body
             yield label + ' (headers property)', wraps['header-flags'](props)
+    elif kind == 'scalar-limits':
+        # every scalar tag whose Python type has limits of its own, with
+        # payloads around those limits: well-formed frames all of them - a
+        # frame or an UnmarshalingException, within the budgets
+        wraps = dict(faults.envelopes())
+        for n, (label, vb) in enumerate(scalar_limits()):
+            if n % 4 != task[1]:
+                continue
+            body = b'\x01k' + vb
+            yield label + ' (table value)', wraps['table-body'](body)
+            arr = b'\x01kA' + struct.pack('>I', len(vb)) + vb
+            yield label + ' (array element)', wraps['table-body'](arr)
+            props = b'\x20\x00' + struct.pack('>I', len(body)) + body
+            yield label + ' (headers property)', wraps['header-flags'](props)
+            if vb[:1] == b'T':
+                yield label + ' (timestamp property)', wraps['header-flags'](
+                    b'\x00\x40' + vb[1:])
     elif kind == 'siblings':
         wraps = dict(faults.envelopes())
         for label, body in faults.sibling_lies(task[1]):
